@@ -43,6 +43,52 @@ def scope_module(prog):
 SCOPESTACK = "eval::scope::ScopeStack"
 
 
+import re as _re_mod
+
+_SEQ_WRAP = ("std::sync::Arc<", "std::rc::Rc<", "std::boxed::Box<")
+
+
+def seq_elem(t):
+    """Element type of a (reference to a) sequence of AST nodes or values:
+    `&Vec<T>`, `&[T]`, `&Arc<[T]>`, `&Arc<Vec<T>>`, `Vec<T>` ... -> `T`;
+    None for anything else.  (A clean-up that borrows a slice instead of a
+    `&Vec`, or shares a body behind an `Arc`, keeps the element type.)"""
+    t = _strip_ty(t)
+    for w in _SEQ_WRAP:
+        if t.startswith(w) and t.endswith(">"):
+            t = t[len(w):-1]
+            break
+    if t.startswith("std::vec::Vec<") and t.endswith(">"):
+        return t[len("std::vec::Vec<"):-1]
+    if t.startswith("[") and t.endswith("]") and ";" not in t:
+        return t[1:-1]
+    return None
+
+
+def is_seq_ref(t, elem):
+    return t.startswith("&") and seq_elem(t) == elem
+
+
+def evaluation_reach(prog):
+    """Everything that can run while a script is being evaluated: the forward
+    closure (function pointers included, i.e. the builtins) of the
+    hand-written functions outside the crate root that are handed a piece of
+    the AST.  Set-up code of the driver (`main`, registration of builtins) is
+    outside it: it runs before the first statement and sees no script value."""
+    memo = getattr(prog, "_evaluation_reach", None)
+    if memo is not None:
+        return memo
+    roots = []
+    for f in prog.hand_fns():
+        if f.is_closure or f.from_expansion or not f.module:
+            continue
+        if any("ast::" in t for t in f.locals[1:f.arg_count + 1]):
+            roots.append(f.path)
+    out = prog.reachable_from(roots, prog.call_graph())
+    prog._evaluation_reach = out
+    return out
+
+
 def cell_allocators(prog):
     """Crate helpers that hand back a cell they have just allocated
     (`fn new_shared<T>(v: T) -> Arc<Mutex<T>> { Arc::new(Mutex::new(v)) }`):
